@@ -52,7 +52,7 @@ for name in sys.argv[1:]:
                     out.append(l)
             open("/verif/" + f, "w").write("\n".join(out) + "\n")
             sh("git -C /verif add " + f)
-        elif f == "MANIFEST.json" or f.startswith("evidence/") or f == "hooks.json":
+        elif f in ("MANIFEST.json", "hooks.json", "driver/not_claimed.json") or f.startswith("evidence/"):
             sh("git -C /verif checkout --ours -- %s && git -C /verif add %s" % (f, f))
             if f == "hooks.json":
                 print(name, "verif: hooks.json conflict kept ours - merge source_commits by hand")
